@@ -154,5 +154,30 @@ k("K87", "C01", "frame/decode.go", "\tif header.IsResponse && header.Flags.Conta
 k("K88", "C01", "message/result_metadata.go", "\tif flags.Contains(primitive.RowsFlagMetadataChanged) {\n\t\tif metadata.NewResultMetadataId, err = primitive.ReadShortBytes(source)", "\tif flags.Contains(primitive.RowsFlagHasMorePages) {\n\t\tif metadata.NewResultMetadataId, err = primitive.ReadShortBytes(source)",
   "enc-vs-dec:resultCodec@", "reader guards a field with the wrong flag constant")
 
+# ---- C02
+k("K06", "C02", "primitive/constants.go", "\tQueryFlagPageSize          = QueryFlag(0x00000004)\n\tQueryFlagPagingState       = QueryFlag(0x00000008)\n", "\tQueryFlagPageSize          = QueryFlag(0x00000008)\n\tQueryFlagPagingState       = QueryFlag(0x00000004)\n",
+  "layout-enc:QUERY", "two flag bits swapped (symmetric: round trips still work)")
+k2("K31", "C02", [("message/error.go", "\t\t} else if err = primitive.WriteInt(unavailable.Required, dest); err != nil {", "\t\t} else if err = primitive.WriteShort(uint16(unavailable.Required), dest); err != nil {"),
+  ("message/error.go", "\t\tif msg.Required, err = primitive.ReadInt(source); err != nil {", "\t\tvar req uint16\n\t\tif req, err = primitive.ReadShort(source); err != nil {")],
+  "layout-enc:ERROR", "width changed on both sides")
+C.pop()
+k("K33", "C02", "frame/decode.go", "\t\t} else if isResponse {\n\t\t\tif err := primitive.CheckResponseOpCode(header.OpCode); err != nil {\n\t\t\t\treturn nil, err\n\t\t\t}\n\t\t} else {", "\t\t} else if isResponse {\n\t\t} else {",
+  "header-rejection:DecodeHeader", "response direction not checked against the opcode")
+k2("K32", "C02", [("frame/encode.go", "\tif header.Flags.Contains(primitive.HeaderFlagTracing) && body.Message.IsResponse() {\n\t\tif err = primitive.WriteUuid(body.TracingId, dest); err != nil {\n\t\t\treturn fmt.Errorf(\"cannot encode body tracing id: %w\", err)\n\t\t}\n\t}\n\tif header.Flags.Contains(primitive.HeaderFlagCustomPayload) {\n\t\tif header.Version < primitive.ProtocolVersion4 {\n\t\t\treturn fmt.Errorf(\"custom payloads are not supported in protocol version %v\", header.Version)\n\t\t} else if err = primitive.WriteBytesMap(body.CustomPayload, dest); err != nil {\n\t\t\treturn fmt.Errorf(\"cannot encode body custom payload: %w\", err)\n\t\t}\n\t}\n",
+   "\tif header.Flags.Contains(primitive.HeaderFlagCustomPayload) {\n\t\tif header.Version < primitive.ProtocolVersion4 {\n\t\t\treturn fmt.Errorf(\"custom payloads are not supported in protocol version %v\", header.Version)\n\t\t} else if err = primitive.WriteBytesMap(body.CustomPayload, dest); err != nil {\n\t\t\treturn fmt.Errorf(\"cannot encode body custom payload: %w\", err)\n\t\t}\n\t}\n\tif header.Flags.Contains(primitive.HeaderFlagTracing) && body.Message.IsResponse() {\n\t\tif err = primitive.WriteUuid(body.TracingId, dest); err != nil {\n\t\t\treturn fmt.Errorf(\"cannot encode body tracing id: %w\", err)\n\t\t}\n\t}\n"),
+  ("frame/decode.go", "\tif header.IsResponse && header.Flags.Contains(primitive.HeaderFlagTracing) {\n\t\tif body.TracingId, err = primitive.ReadUuid(source); err != nil {\n\t\t\treturn nil, fmt.Errorf(\"cannot decode body tracing id: %w\", err)\n\t\t}\n\t}\n\tif header.Flags.Contains(primitive.HeaderFlagCustomPayload) {\n\t\tif body.CustomPayload, err = primitive.ReadBytesMap(source); err != nil {\n\t\t\treturn nil, fmt.Errorf(\"cannot decode body custom payload: %w\", err)\n\t\t}\n\t}\n",
+   "\tif header.Flags.Contains(primitive.HeaderFlagCustomPayload) {\n\t\tif body.CustomPayload, err = primitive.ReadBytesMap(source); err != nil {\n\t\t\treturn nil, fmt.Errorf(\"cannot decode body custom payload: %w\", err)\n\t\t}\n\t}\n\tif header.IsResponse && header.Flags.Contains(primitive.HeaderFlagTracing) {\n\t\tif body.TracingId, err = primitive.ReadUuid(source); err != nil {\n\t\t\treturn nil, fmt.Errorf(\"cannot decode body tracing id: %w\", err)\n\t\t}\n\t}\n")],
+  "prefix:", "custom payload moved before the tracing id on both sides")
+k2("K89", "C02", [("message/result_metadata.go", "\tif flags.Contains(primitive.RowsFlagMetadataChanged) {\n\t\tif err = primitive.WriteShortBytes(metadata.NewResultMetadataId, dest); err != nil {\n\t\t\treturn fmt.Errorf(\"cannot write RESULT Rows metadata new result metadata id: %w\", err)\n\t\t}\n\t}\n\tif flags.Contains(primitive.RowsFlagDseContinuousPaging) {\n\t\tif err = primitive.WriteInt(metadata.ContinuousPageNumber, dest); err != nil {\n\t\t\treturn fmt.Errorf(\"cannot write RESULT Rows metadata continuous page number: %w\", err)\n\t\t}\n\t}\n",
+   "\tif flags.Contains(primitive.RowsFlagDseContinuousPaging) {\n\t\tif err = primitive.WriteInt(metadata.ContinuousPageNumber, dest); err != nil {\n\t\t\treturn fmt.Errorf(\"cannot write RESULT Rows metadata continuous page number: %w\", err)\n\t\t}\n\t}\n\tif flags.Contains(primitive.RowsFlagMetadataChanged) {\n\t\tif err = primitive.WriteShortBytes(metadata.NewResultMetadataId, dest); err != nil {\n\t\t\treturn fmt.Errorf(\"cannot write RESULT Rows metadata new result metadata id: %w\", err)\n\t\t}\n\t}\n"),
+  ("message/result_metadata.go", "\tif flags.Contains(primitive.RowsFlagMetadataChanged) {\n\t\tif metadata.NewResultMetadataId, err = primitive.ReadShortBytes(source); err != nil {\n\t\t\treturn nil, fmt.Errorf(\"cannot read RESULT Rows metadata new result metadata id: %w\", err)\n\t\t}\n\t}\n\tif flags.Contains(primitive.RowsFlagDseContinuousPaging) {\n\t\tif metadata.ContinuousPageNumber, err = primitive.ReadInt(source); err != nil {\n\t\t\treturn nil, fmt.Errorf(\"cannot read RESULT Rows metadata continuous paging number: %w\", err)\n\t\t}\n\t\tmetadata.LastContinuousPage = flags.Contains(primitive.RowsFlagDseLastContinuousPage)\n\t}\n",
+   "\tif flags.Contains(primitive.RowsFlagDseContinuousPaging) {\n\t\tif metadata.ContinuousPageNumber, err = primitive.ReadInt(source); err != nil {\n\t\t\treturn nil, fmt.Errorf(\"cannot read RESULT Rows metadata continuous paging number: %w\", err)\n\t\t}\n\t\tmetadata.LastContinuousPage = flags.Contains(primitive.RowsFlagDseLastContinuousPage)\n\t}\n\tif flags.Contains(primitive.RowsFlagMetadataChanged) {\n\t\tif metadata.NewResultMetadataId, err = primitive.ReadShortBytes(source); err != nil {\n\t\t\treturn nil, fmt.Errorf(\"cannot read RESULT Rows metadata new result metadata id: %w\", err)\n\t\t}\n\t}\n")],
+  "layout-enc:RESULT", "two optional metadata fields swapped in encoder and decoder (seeded C02-A)")
+k("K90", "C02", "message/execute.go", "\tif version.SupportsResultMetadataId() {\n\t\tif execute.ResultMetadataId, err = primitive.ReadShortBytes(source)", "\tif version >= primitive.ProtocolVersion5 && version != primitive.ProtocolVersionDse2 {\n\t\tif execute.ResultMetadataId, err = primitive.ReadShortBytes(source)",
+  "layout-dec:EXECUTE", "decoder drops a field the DSE v2 specification prescribes")
+k("K91", "C02", "primitive/integers.go", "func ReadLong(source io.Reader) (decoded int64, err error) {\n\tif err = binary.Read(source, binary.BigEndian, &decoded); err != nil {\n\t\terr = fmt.Errorf(\"cannot read [long]: %w\", err)\n\t}\n\treturn decoded, err\n}",
+  "func ReadLong(source io.Reader) (decoded int64, err error) {\n\tvar hi, lo int32\n\tif err = binary.Read(source, binary.BigEndian, &hi); err == nil {\n\t\terr = binary.Read(source, binary.BigEndian, &lo)\n\t}\n\tif err != nil {\n\t\treturn 0, fmt.Errorf(\"cannot read [long]: %w\", err)\n\t}\n\treturn int64(hi)<<32 | int64(lo), nil\n}",
+  "bit-assembly:primitive.ReadLong", "long assembled from two sign-extended halves (seeded C01-B)")
+
 json.dump(C, open(os.path.join(os.path.dirname(os.path.abspath(__file__)), "controls.json"), "w"), indent=1)
 print(len(C), "controls")
